@@ -855,6 +855,10 @@ impl Interval {
         let rhs_ref = rhs_owned.as_ref().unwrap_or(rhs);
 
         let zero = ScalarValue::new_zero(&dt)?;
+        // The sign of an operand is decided against zero itself: for integer types
+        // `zero_point` below is `[-1, 1]`, and comparing an upper endpoint with its
+        // lower end (-1) would classify e.g. `[-5, 0]` as a positive interval.
+        let sign_point = Self::new(zero.clone(), zero.clone());
         // We want 0 to be approachable from both negative and positive sides.
         let zero_point = match &dt {
             DataType::Float32 | DataType::Float64 => Self::new(zero.clone(), zero),
@@ -875,14 +879,14 @@ impl Interval {
                 &dt,
                 lhs_ref,
                 rhs_ref,
-                &zero_point,
+                &sign_point,
             ))
         } else {
             Ok(div_helper_zero_exclusive(
                 &dt,
                 lhs_ref,
                 rhs_ref,
-                &zero_point,
+                &sign_point,
             ))
         }
     }
